@@ -19,6 +19,37 @@ class G:
     def __init__(self, rng):
         self.rng = rng
         self.cnt = 0
+        self.funs = None        # the functions the session has defined so far: (name, arity); set by sessions()
+        self.ndef = 0
+
+    def body_expr(self, params, d):
+        """a pure expression over the parameters and the globals (no function name, no call)"""
+        r = self.rng
+        leaves = list(params) * 2 + NAMES + ["1", "2", "10", "2.5"]
+        c = r.random()
+        if d <= 0 or c < 0.3:
+            return r.choice(leaves)
+        if c < 0.7:
+            return "(%s %s %s)" % (self.body_expr(params, d - 1), r.choice(BIN_ARITH + BIN_REL), self.body_expr(params, d - 1))
+        if c < 0.8:
+            return "[%s]" % ", ".join(self.body_expr(params, d - 1) for _ in range(r.randint(0, 3)))
+        if c < 0.9:
+            return "-%s" % self.body_expr(params, d - 1)
+        return "%s[%s]" % (r.choice(ARRS), self.body_expr(params, 0))
+
+    def definition(self):
+        """a top-level definition in the middle of a session: a new function, or an earlier one defined again"""
+        r = self.rng
+        mine = [f for f in self.funs if f[0].startswith("u")]
+        if mine and r.random() < 0.25:
+            name = r.choice(mine)[0]
+        else:
+            self.ndef += 1
+            name = "u%d" % self.ndef
+        ar = r.randint(0, 3)
+        params = ["p", "q", "w"][:ar]
+        self.funs = [f for f in self.funs if f[0] != name] + [(name, ar)]
+        return "%s = (%s) -> %s" % (name, ", ".join(params), self.body_expr(params, 2))
 
     def int_lit(self):
         r = self.rng
@@ -81,7 +112,9 @@ class G:
             if k < 0.28:
                 return "toa(%s)" % self.any_expr(2)
             if k < 0.46 and k >= 0.36:
-                f, ar = r.choice(UFUNS)
+                pool = self.funs if self.funs else UFUNS
+                mine = [x for x in pool if x[0].startswith("u")]
+                f, ar = r.choice(mine) if mine and r.random() < 0.6 else r.choice(pool)
                 if f == "fsel":
                     args = "%s, %s, %s" % (r.choice(ARRS + STRS), self.expr(0), self.expr(0))
                 else:
@@ -138,5 +171,11 @@ def sessions(seed, n):
     out = []
     for _ in range(n):
         g = G(rng)
-        out.append(PRELUDE + [g.stmt(rng.randint(1, 3)) for _ in range(rng.randint(3, 7))])
+        g.funs = list(UFUNS)
+        body = []
+        for _ in range(rng.randint(3, 7)):
+            if rng.random() < 0.15:
+                body.append(g.definition())      # definitions anywhere between the statements
+            body.append(g.stmt(rng.randint(1, 3)))
+        out.append(PRELUDE + body)
     return out
